@@ -24,6 +24,23 @@ STATE_ONLY = "time qpos qvel act qacc_warmstart history".split()
 SOLVER_FIELDS = {"qacc", "qacc_warmstart", "qfrc_constraint", "cacc", "cfrc_int", "cfrc_ext", "sensordata", "qvel", "qpos", "act", "act_dot", "history"}
 
 
+CAP_BITS = 511  # every OverflowType bit except ITERATIONS (1<<9) and LS_ITERATIONS (1<<10)
+ITER_BITS = (1 << 9) | (1 << 10)
+
+
+def gate(ofA, wa, ofB, wb):
+  """None if world wa of execution A may be compared with world wb of B, else the reason.
+
+  Capacity bits in ANY world disable the comparison (contacts share one pool); iteration-limit bits of the
+  compared worlds disable it too: an unconverged solve legitimately amplifies reordered-sum round-off
+  (measured: constraints.xml, iterations=4, nworld 1 vs 4: 3% in qfrc_constraint at |force| 1e6)."""
+  if (ofA & CAP_BITS).any() or (ofB & CAP_BITS).any():
+    return "capacity_overflow"
+  if (ofA[wa] & ITER_BITS) or (ofB[wb] & ITER_BITS):
+    return "iteration_limit"
+  return None
+
+
 def snap_obs(d, fields=OBS_FIELDS):
   out = {}
   for k in fields:
